@@ -308,7 +308,7 @@ def network_recipe(draw, ids=None, max_lanelets=8, lim=200, profile=None):
             start = [anchor[0] + draw(st.floats(-15, 15)), anchor[1] + draw(st.floats(-15, 15))]
         heading = draw(angle())
         chain_len = draw(st.integers(1, min(3, budget)))
-        neighbours = draw(st.sampled_from(["none", "none", "same", "opposite"]))
+        neighbours = draw(st.sampled_from(["none", "none", "same", "opposite", "both"]))
         w = draw(st.floats(0.8, 3.0))
         prev = None
         for c in range(chain_len):
@@ -332,7 +332,7 @@ def network_recipe(draw, ids=None, max_lanelets=8, lim=200, profile=None):
                 right = pl["left"]
                 center = gg.offset_polyline(pl["center"], pl["heads"], 2 * w)
                 left = gg.offset_polyline(pl["center"], pl["heads"], 3 * w)
-                if neighbours == "same":
+                if neighbours in ("same", "both"):
                     nb = {"id": nid, "left": left, "right": right, "center": center, "pred": [], "succ": [],
                           "adj_right": lid, "adj_right_same": True, "road": road}
                     la["adj_left"], la["adj_left_same"] = nid, True
@@ -342,9 +342,18 @@ def network_recipe(draw, ids=None, max_lanelets=8, lim=200, profile=None):
                     la["adj_left"], la["adj_left_same"] = nid, False
                 lanelets.append(nb)
                 budget -= 1
+                if neighbours == "both" and budget > 0:
+                    # third lane: right neighbour (same direction) sharing the base lanelet's right boundary
+                    rid = ids.new()
+                    rb = {"id": rid, "left": pl["right"], "center": gg.offset_polyline(pl["center"], pl["heads"], -2 * w),
+                          "right": gg.offset_polyline(pl["center"], pl["heads"], -3 * w), "pred": [], "succ": [],
+                          "adj_left": lid, "adj_left_same": True, "road": road}
+                    la["adj_right"], la["adj_right_same"] = rid, True
+                    lanelets.append(rb)
+                    budget -= 1
                 if prev is not None and prev.get("nb") is not None:
                     pn = prev["nb"]
-                    if neighbours == "same":
+                    if neighbours in ("same", "both"):
                         nb["pred"].append(pn["id"])
                         pn["succ"].append(nid)
                     else:
